@@ -11,15 +11,25 @@ polyhedralInverse :  alpha := (w / h) * area(a,b,c);  S := sin alpha;  halfC := 
                      f := S*V + CC*(c01*c12 - c20);  g := CC*s12*(1 + c01)
                      q := (2 / acos c12) * atan2 g f;   p := slerp b c q
 ```
-This file (part 1 of 2): vector algebra over `ℝ`, the area formula, and the trigonometric core.
+This file (part 1 of 2; part 2 = `AngularRoundTrip2.lean` combines it with the radial half):
 
-* `midTripleR`, `triAreaR` : real twins of the code's `s` and of the exact (`asin`) branch of
-  `get_triangle_area` (the `clamp` is kept; the small-`|s|` switch `2*s` is NOT modelled);
-* `midpoint_triple_eq` : `s = V / √(2 (1+x·y)(1+y·z)(1+z·x))` for unit `x y z` no two of which are antipodal;
-* `gram_unit` : `V² + (1 + x·y + y·z + z·x)² = 2 (1+x·y)(1+y·z)(1+z·x)`;
-* `triAreaR_eq_arctan`, `eriksson` : `E = 2 arctan (V / (1 + x·y + y·z + z·x))`, `tan (E/2) = V / (1 + …)`
+* `tripleR`, `quadrupleProductR`, `midTripleR`, `triAreaR`, `edgeF`, `edgeG`, `edgeParamR` : real twins
+  (transcriptions of the model's expression trees onto `R3` of `RadialRoundTrip.lean`; not tied by `rfl`, the
+  model's `V3` has `Float` fields).  `triAreaR` is the exact (`asin`) branch of `get_triangle_area`, clamp kept;
+  the small-`|s|` switch `2*s` of the code is NOT modelled;
+* (A) `midpoint_triple_eq` : `s = V / √(2 (1+x·y)(1+y·z)(1+z·x))` for unit `x y z` no two of which are antipodal;
+  `gram_unit` : `V² + (1 + x·y + y·z + z·x)² = 2 (1+x·y)(1+y·z)(1+z·x)`;
+  `triAreaR_eq_arctan`, `eriksson` : `E = 2 arctan (V / (1 + x·y + y·z + z·x))`, `tan (E/2) = V / (1 + …)`
   when the denominator is positive (area `< π`);
-* `atan2R` : IEEE `atan2` on the reals (all quadrants), with `atan2R_polar`.
+* `atan2R` : IEEE `atan2` on the reals (all quadrants), with `atan2R_polar`;
+* (B) `angular_inverse_formula` : for `p = slerp b c q`, `0 ≤ q ≤ 1`, `alpha = area(a,b,p)`:
+  `g (1 + cos qθ) = f sin qθ` and the code's `(2 / acos c12) atan2 g f = q`;
+* (C) `angular_forward_formula` : for `0 < alpha < area(a,b,c)` the code's `q` lies in `(0,1)` and
+  `area(a, b, slerp b c q) = alpha`.
+
+Hypotheses on the triangle throughout: `a b c` unit vectors, `V = a·(b×c) > 0` (counter-clockwise,
+non-degenerate), `1 + a·b + b·c + c·a > 0` (area `< π`), `SLERP_SWITCH ≤ ∠(b,c)` (so `slerp` is in its
+trigonometric branch).  That the 1/10-face triangles of the dodecahedron satisfy them is not proved here.
 
 Nothing here is about floating-point rounding. -/
 namespace A5.AngularRoundTrip
